@@ -17,7 +17,7 @@ open Rimu Props.C04 Props.C20
 /-- **A call without options is `document.render` on the carried-over state.** -/
 theorem render_without_options (env : Env) (fuel : Nat) (src : Str) (s : Session) (h : s.safeMode ≠ -1) :
     (apiRender env fuel src {}).run s =
-      ((mkRec env fuel).document 0 src).run (if s.callback then { s with callback := false } else s) := by
+      ((mkRec env fuel).document 0 src).run s := by
   rw [apiRender_eq, run_bind, apiPrefix_run]
   have : (s.safeMode == -1) = false := by simpa using h
   simp only [this, Bool.false_eq_true, if_false, updateFrom_none]
@@ -28,7 +28,7 @@ theorem render_without_options (env : Env) (fuel : Nat) (src : Str) (s : Session
 theorem state_carries_across_calls (env : Env) (fuel : Nat) (a b : Str) (o : RenderOptions) (s s₁ : Session) (h₁ : Str)
     (hr : (apiRender env fuel a o).run s = .ok (h₁, s₁)) (hinit : s.safeMode = -1 ∨ ModeOk s) :
     (apiRender env fuel b {}).run s₁ =
-      ((mkRec env fuel).document 0 b).run (if s₁.callback then { s₁ with callback := false } else s₁) := by
+      ((mkRec env fuel).document 0 b).run s₁ := by
   have hm := apiRender_modeOk env fuel a o s s₁ h₁ hinit hr
   exact render_without_options env fuel b s₁ (by unfold ModeOk at hm; omega)
 
